@@ -3,5 +3,6 @@
 set -e
 export GOFLAGS=-mod=mod GOPROXY=off GOSUMDB=off GOTOOLCHAIN=local CGO_ENABLED=0
 V=$(cd "$(dirname "$0")" && pwd); REPO=${VERIF_REPO:-/repo}
-mkdir -p $V/.build; rm -f $V/.build/ps3netsrv-go
-cd $REPO && go build -o $V/.build/ps3netsrv-go ./cmd/ps3netsrv-go
+mkdir -p $V/.build
+cd $REPO && go build -o $V/.build/ps3netsrv-go.new.$$ ./cmd/ps3netsrv-go
+mv -f $V/.build/ps3netsrv-go.new.$$ $V/.build/ps3netsrv-go
